@@ -442,10 +442,14 @@ func (s *Session) parseSdp(rawSdp string) (err error) {
 		switch media.Type {
 		case "video":
 			s.vControl = media.Attributes.Get("control")
-			s.vCodec = media.Format[0].Name
+			if len(media.Format) > 0 { // 非 RTP 的媒体描述(如 `m=video 0 udp x`)没有格式列表
+				s.vCodec = media.Format[0].Name
+			}
 		case "audio":
 			s.aControl = media.Attributes.Get("control")
-			s.aCodec = media.Format[0].Name
+			if len(media.Format) > 0 { // 非 RTP 的媒体描述(如 `m=video 0 udp x`)没有格式列表
+				s.aCodec = media.Format[0].Name
+			}
 		}
 	}
 	return
